@@ -28,8 +28,10 @@ type C01Plan struct {
 
 type C01 struct{}
 
-func (C01) ID() string           { return "C01" }
-func (C01) Title() string        { return "fault-free world: mixed recipient lists, identity order, chunk-boundary lengths, armor" }
+func (C01) ID() string { return "C01" }
+func (C01) Title() string {
+	return "fault-free world: mixed recipient lists, identity order, chunk-boundary lengths, armor"
+}
 func (C01) NewPlan() interface{} { return &C01Plan{} }
 func (C01) Runs(tier string) int {
 	if tier == "thorough" {
@@ -40,8 +42,8 @@ func (C01) Runs(tier string) int {
 
 func (C01) Meta() core.Meta {
 	return core.Meta{
-		Level: "exploration",
-		Rule: "a case = (recipient list of 1..6 from {X25519, ssh-ed25519, ssh-rsa, grease recipient emitting 0..2 unknown stanzas} in any order with duplicates, or one scrypt recipient; plaintext length in {0,1, k*64KiB-1..+1 for k<=4, random}; armor on/off; write segmentation; for every listed recipient an identity list with its identity at a random position among 0..5 non-matching identities of all four types; delivery and read schedules), no fault injected. Oracle: plaintext exact, clean and sticky EOF, Unwrap trace = identities up to and including the first that opens, none after. Non-trivial = more than one stanza or a non-matching identity in front or a chunk-boundary length; distinct = distinct (file skeleton, identity lists).",
+		Level:       "exploration",
+		Rule:        "a case = (recipient list of 1..6 from {X25519, ssh-ed25519, ssh-rsa, grease recipient emitting 0..2 unknown stanzas} in any order with duplicates, or one scrypt recipient; plaintext length in {0,1, k*64KiB-1..+1 for k<=4, random}; armor on/off; write segmentation; for every listed recipient an identity list with its identity at a random position among 0..5 non-matching identities of all four types; delivery and read schedules), no fault injected. Oracle: plaintext exact, clean and sticky EOF, Unwrap trace = identities up to and including the first that opens, none after. Non-trivial = more than one stanza or a non-matching identity in front or a chunk-boundary length; distinct = distinct (file skeleton, identity lists).",
 		Assumptions: []string{"seeded sampling only: no fault or schedule appears in C01; it is the fault-free configuration against which the safety engines are meaningful"},
 		Real:        []string{"filippo.io/age Encrypt/Decrypt", "X25519/scrypt/ssh-ed25519/ssh-rsa recipients and identities", "armor", "internal/stream", "internal/format", "age.ParseRecipients / ParseIdentities, agessh.ParseRecipient / ParseIdentity (a third of the runs)"},
 		Stub:        []string{"destination recorder", "source with delivery schedule", "grease recipient", "logging identity wrapper", "crypto/rand.Reader (tape)"},
@@ -177,8 +179,20 @@ func (C01) Shrinks(plan interface{}) []interface{} {
 	return out
 }
 
-func (e C01) Execute(plan interface{}, c *core.Ctx) *core.Verdict {
+func (e C01) Execute(plan interface{}, c *core.Ctx) (verdict *core.Verdict) {
 	p := plan.(*C01Plan)
+	if p.Via > 0 {
+		// world.*Via panics with a description when a text parser loses or rejects a key of a well-formed file
+		defer func() {
+			if r := recover(); r != nil {
+				if s, ok := r.(string); ok && strings.HasPrefix(s, "age.Parse") {
+					verdict = core.Fail("C01.key_file_parse", "%s", s)
+					return
+				}
+				panic(r)
+			}
+		}()
+	}
 	d := seam.NewDisk(nil, nil)
 	var res *lib.EncResult
 	if p.Via > 0 {
